@@ -134,6 +134,10 @@ def main():
     if merged['counters'].get('harness_errors'):
         inconclusive.append('harness error: ' + ' || '.join(
             n.replace('\n', ' | ')[-600:] for n in merged['notes'] if n.startswith('HARNESS-ERROR'))[:1500])
+    for name in getattr(mod, 'INCONCLUSIVE_IF', []):
+        if merged['counters'].get(name, 0) > 0:
+            inconclusive.append(f'monitor counter "{name}" = {merged["counters"][name]}: ' + ' || '.join(
+                n for n in merged['notes'] if not n.startswith('HARNESS-ERROR'))[:600])
     for name in getattr(mod, 'REQUIRED', []):
         if merged['counters'].get(name, 0) <= 0:
             inconclusive.append(f'required monitor counter "{name}" is zero')
